@@ -22,6 +22,8 @@ var c11LabelNames = []string{"a", "b", "c"}
 func genVectorRecs(r *vk.RNG, steps int, perStep int) []Rec {
 	var recs []Rec
 	val := 1
+	twins := r.Chance(1, 6)
+	sep := vk.Pick(r, []string{"\xff", "\x00", ",", "=", "\n", "\xfe", "\"", " "})
 	for s := 0; s < steps; s++ {
 		used := map[string]bool{}
 		n := r.Range(0, perStep)
@@ -30,6 +32,15 @@ func genVectorRecs(r *vk.RNG, steps int, perStep int) []Rec {
 			for _, k := range c11LabelNames {
 				if r.Chance(4, 5) {
 					l[k] = vk.Pick(r, []string{"x", "y", "z"})
+				}
+			}
+			if twins && i < 2 {
+				// two label sets that coincide under any framing that joins names and values with the
+				// separator sep: a=x<sep>b<sep>y,b=z and a=x,b=y<sep>b<sep>z
+				if i == 0 {
+					l = map[string]string{"job": "j", "a": "x" + sep + "b" + sep + "y", "b": "z"}
+				} else {
+					l = map[string]string{"job": "j", "a": "x", "b": "y" + sep + "b" + sep + "z"}
 				}
 			}
 			key := labelKey(l)
